@@ -15,6 +15,7 @@ structure DecSlot where
   last : List Packet := []
 
 structure DState where
+  tpls : List (String × Payload) := []
   pls : List (String × Payload) := []
   stats : List (String × StatusSt) := []
   pkts : List (String × Packet) := []
@@ -196,6 +197,53 @@ def stepLine (s : DState) (w : List String) : DState × String :=
     if has s.pls a && has s.pls b then (s, s!"eq={if payloadEq (lookup s.pls a) (lookup s.pls b) then 1 else 0}") else (s, "bad-op")
   | ["pl", "show", a] => if has s.pls a then (s, showPayload (lookup s.pls a)) else (s, "bad-op")
   | ["pl", "drop", a] => ({ s with pls := remove s.pls a }, "ok")
+  | ["pl", op, a, v] =>
+    if has s.pls a && (op == "settype" || op == "setmt" || op == "setraw") then
+      let p := lookup s.pls a
+      let ty := if op == "settype" then nat! v % 2 ^ 32
+                else if op == "setmt" then (p.ty - p.ty / 256 % 256 * 256) + nat! v % 256 * 256
+                else p.ty - p.ty % 256 + nat! v % 256
+      let p' : Payload := { p with ty := ty }
+      ({ s with pls := upsert s.pls a p' }, showPayload p' ++ s!" mt={p'.mt} raw={p'.raw}")
+    else (s, "bad-op")
+  -- TECMP payload objects: same value model; validity is `type != 0xFFFF`
+  | ["tpl", "new", a, ty, hx] =>
+    match parseBytes hx, ofHexChars ty.toList with
+    | some d, some tb =>
+      if tb.isEmpty || tb.length > 4 then (s, "bad-op")
+      else
+        let t := beDec tb
+        ({ s with tpls := upsert s.tpls a ⟨t, if t = 0xFFFF then zeros d.length else d⟩ }, "ok")
+    | _, _ => (s, "bad-op")
+  | ["tpl", "copy", d, src] =>
+    if has s.tpls src then ({ s with tpls := upsert s.tpls d (lookup s.tpls src) }, "ok") else (s, "bad-op")
+  | ["tpl", "assign", d, src] =>
+    if has s.tpls src && has s.tpls d then ({ s with tpls := upsert s.tpls d (lookup s.tpls src) }, "ok") else (s, "bad-op")
+  | ["tpl", "eq", a, b] =>
+    if has s.tpls a && has s.tpls b then (s, s!"eq={if payloadEq (lookup s.tpls a) (lookup s.tpls b) then 1 else 0}") else (s, "bad-op")
+  | ["tpl", "lindata", prior, hx] =>
+    match parseBytes prior, parseBytes hx with
+    | some b, some d =>
+      if b.length < 2 || d.length > 255 then (s, "bad-op")
+      else
+        let o := writeAt (setTail 2 b d) 1 [UInt8.ofNat d.length]
+        (s, s!"raw={showBytes o} len={byteAt o 1} pid={byteAt o 0}")
+    | _, _ => (s, "bad-op")
+  | ["tpl", op, a] =>
+    if op == "show" && has s.tpls a then
+      let p := lookup s.tpls a
+      (s, s!"{toHex (beEnc 4 p.ty)}:{if p.ty != 0xFFFF then 1 else 0}:{p.data.length}:{showBytes p.data} mt={p.mt} raw={p.raw}")
+    else (s, "bad-op")
+  | ["tpl", op, a, v] =>
+    if has s.tpls a && (op == "settype" || op == "setmt" || op == "setraw") then
+      let p := lookup s.tpls a
+      let ty := if op == "settype" then nat! v % 2 ^ 32
+                else if op == "setmt" then (p.ty - p.ty / 256 % 256 * 256) + nat! v % 256 * 256
+                else p.ty - p.ty % 256 + nat! v % 256
+      let p' : Payload := { p with ty := ty }
+      ({ s with tpls := upsert s.tpls a p' },
+        s!"{toHex (beEnc 4 p'.ty)}:{if p'.ty != 0xFFFF then 1 else 0}:{p'.data.length}:{showBytes p'.data} mt={p'.mt} raw={p'.raw}")
+    else (s, "bad-op")
   | "st" :: sid :: rest =>
     let st : StatusSt := lookup s.stats sid
     match rest with
@@ -213,6 +261,7 @@ def stepLine (s : DState) (w : List String) : DState × String :=
       | none => (s, "nodev")
       | some d => (s, s!"ifidx={d.indexOfIf (nat! id % 2 ^ 32)} count={d.ifs.length}")
     | ["dump"] => (s, showStatus st)
+    | ["dumpmut"] => (s, showStatus st)
     | _ => (s, "bad-op")
   | "enc" :: e :: rest =>
     let slot := lookup s.encs e
@@ -221,6 +270,7 @@ def stepLine (s : DState) (w : List String) : DState × String :=
     | ["stream", n] => ({ s with encs := upsert s.encs e { slot with enc := slot.enc.setStream (nat! n) } }, "ok")
     | ["restart"] => ({ s with encs := upsert s.encs e { slot with enc := slot.enc.restart } }, "ok")
     | ["seq"] => (s, s!"seq {slot.enc.seqc}")
+    | ["ids"] => (s, s!"ids {slot.enc.dev} {slot.enc.stream}")
     | kind :: mn :: mx :: ids =>
       let c : Ctx := ⟨nat! mn, nat! mx⟩
       if kind != "encode" && kind != "encodep" && kind != "encode1" then (s, "bad-op")
